@@ -206,7 +206,8 @@ func RunSched(c Case) (*Violation, map[string]int) {
 		opts.Prop = "C19"
 	}
 	var evOut map[string]int
-	opts.After = func(w *World) { v = concurrentPhase(w, c) }
+	phaseStarted := false
+	opts.After = func(w *World) { phaseStarted = true; v = concurrentPhase(w, c) }
 	pre := c
 	pre.Cfg.CheckEvery = 0
 	pv, ev := Run(pre, opts)
@@ -215,7 +216,9 @@ func RunSched(c Case) (*Violation, map[string]int) {
 		if c.Cfg.Profile == "C19-sched" {
 			return nil, evOut // the pre-state is judged by ./check C05 and the history checks
 		}
-		if pv.Sig != "panic" || v == nil {
+		if phaseStarted {
+			pv.Sig = "concurrent-phase:" + pv.Sig // raised outside the workers (final reads, closing the shared snapshot)
+		} else if pv.Sig != "panic" || v == nil {
 			pv.Sig = "pre-state:" + pv.Sig
 		}
 		return pv, evOut
